@@ -2,6 +2,7 @@ import Nsq.Model.Line
 import Nsq.Model.Guid
 import Nsq.Model.GuidClock
 import Nsq.Model.Num
+import Nsq.Model.RdyBytes
 import Nsq.Model.PQ
 import Nsq.Model.Timing
 import Nsq.Model.TimingOpts
@@ -138,6 +139,10 @@ def stepLine (line : String) : String :=
   | ["optcheck", fixed, mt, max] =>
     match mt.toInt?, max.toInt? with
     | some mt, some max => Nsq.Model.TimingOpts.optcheckAnswer (fixed == "1") mt max
+    | _, _ => "bad-op"
+  | ["rdy", maxRdy, arg] =>
+    match bv64 maxRdy, (if arg = "none" then some none else (unhex arg).map some) with
+    | some maxRdy, some a => Nsq.Model.RdyBytes.rdyAnswer maxRdy (a.map toBV8)
     | _, _ => "bad-op"
   | ["hex", g] =>
     match bv64 g with
